@@ -647,9 +647,14 @@ func main() {
 				x := hx.Hex([]byte("x"))
 				hexs := func(v string) string { return hx.Hex([]byte(v)) }
 				pre := []string{"begin", "ctop " + x, "new 0 " + hexs("e"), "new 1 " + hexs("f"), "new 2 " + hexs("ff"), "new 0 " + hexs("g"), "put 4 " + hexs("k") + " " + hexs("v"),
-					"new 0 " + hexs("c"), "put 5 " + hexs("k1") + " " + hexs("v1"), "put 0 " + hexs("k0") + " " + hexs("v0"), "commit"}
+					"new 0 " + hexs("c"), "put 5 " + hexs("k1") + " " + hexs("v1"), "put 0 " + hexs("k0") + " " + hexs("v0"),
+					"new 0 " + hexs("r"), "put 6 " + hexs("k") + " " + hexs("old"), "put 6 " + hexs("k3") + " " + hexs("old3"), "commit"}
 				singles := [][]string{{"delb 0 " + hexs("e")}, {"delb 0 " + hexs("g")}, {"del 0 " + hexs("k0")}, {"new 0 " + hexs("n")}, {"put 0 " + hexs("k2") + " " + hexs("v2")},
-					{"sub 0 " + hexs("c"), "clear 1"}, {"sub 0 " + hexs("n"), "new 1 " + hexs("m")}, {"sub 0 " + hexs("n"), "delb 1 " + hexs("m")}, {"delb 0 " + hexs("n")}}
+					{"sub 0 " + hexs("c"), "clear 1"}, {"sub 0 " + hexs("n"), "new 1 " + hexs("m")}, {"sub 0 " + hexs("n"), "delb 1 " + hexs("m")}, {"delb 0 " + hexs("n")},
+					// a bucket removed and created again in ONE transaction: the transaction sees its own removal, and what it then
+					// writes into the new bucket - also under a key the old one held - is what is there after the commit
+					{"delb 0 " + hexs("r"), "new 0 " + hexs("r"), "get 1 " + hexs("k"), "scan 1 -", "put 1 " + hexs("k") + " " + hexs("new"), "get 1 " + hexs("k3")},
+					{"sub 0 " + hexs("r"), "get 1 " + hexs("k"), "get 1 " + hexs("k3"), "scan 1 -"}}
 				h.Rng.Shuffle(3, func(i, j int) { singles[i], singles[j] = singles[j], singles[i] })
 				for _, op := range pre {
 					h.Emit(op, e.apply(op))
